@@ -63,7 +63,10 @@ CHECKS = {
              "bracket_condition_plain: any input without '[' satisfies it; file URLs are free of it) and with "
              "ada::idna::to_ascii as a parameter; aggregator_parser_no_base_partial - through C04.parse_agrees the default "
              "type's parser without a base leaves the layout (bytes and eight offsets) of Spec.parse's record, and "
-             "aggregator_parser_with_base_partial the same with a base (C04.parse_agrees_with_base). Spec.parse is a hand transcription of the Standard (trusted, validated by WPT). "
+             "aggregator_parser_with_base_partial the same with a base (C04.parse_agrees_with_base); parser_chain_partial - parse a base, "
+             "then parse against it, on both types, with no assumption about the base beyond the side condition; "
+             "aggregator_href_is_standard_partial / url_href_is_standard_partial - get_href() of the parsed object is the "
+             "Standard's serialisation of the Standard's record, byte for byte. Spec.parse is a hand transcription of the Standard (trusted, validated by WPT). "
              "IDNA answers inside the Spec come from ada::idna (C06)."),
 
     "C03": dict(
